@@ -179,12 +179,13 @@ def c_pair(kind, cfg, na, sa, nb, sb):
     return 2 * c if kind == "TMP" else c
 
 
-def games_S2(kind, cfg):
+def games_S2(kind, cfg, sig=None):
     """2 homogeneous teams at every standardised gap of X41.  Yields absolute-unit games."""
     b = cfg.beta
+    sig = sig or S4
     for (na, nb) in SHAPES_S2:
-        for sa in S4:
-            for sb in S4:
+        for sa in sig:
+            for sb in sig:
                 c = c_pair(kind, cfg, na, sa, nb, sb)
                 for x in X41:
                     gap = x * c
